@@ -784,7 +784,32 @@ def rule_formatsafe(ctx):
     yield from common.rule_formatsafe(ctx, "C10.FORMATSAFE", ("chord.py",))
 
 
+def rule_degreemodulo(ctx):
+    """encode() hands its reduce_extended_chords flag to scale_degree_to_bitmap for every added / omitted degree: that
+    flag decides whether a 9th / 11th / 13th is folded into the octave or discarded (the helper's own default is False,
+    whatever its docstring says)."""
+    R = "C10.DEGREEMODULO"
+    f = ctx.program.func("chord.encode", R)
+    s = ctx.S.get(f.qual)
+    cs = [c for c in s.calls() if c.callee == "chord.scale_degree_to_bitmap"]
+    need(cs or "chord.scale_degree_to_bitmap" in getattr(s, "inlined", ()) or any(c.callee == "chord.scale_degree_to_semitone" for c in s.calls()), R, "encode: the degrees are no longer turned into bitmap edits by a call this rule knows")
+    g = ctx.program.func("chord.scale_degree_to_bitmap", R) if ctx.program.has_func("chord.scale_degree_to_bitmap") else None
+    for k, c in enumerate(cs):
+        b = {}
+        for i_, a in enumerate(c.args):
+            if g is not None and i_ < len(g.params):
+                b[g.params[i_]] = a
+        for n_, v_ in c.kw:
+            b[n_] = v_
+        m = b.get("modulo")
+        good = m is not None and m.op == "param" and m.a[0] == "reduce_extended_chords"
+        yield ob(R, f, "chord.encode:degree-modulo@%d" % k, good, "scale_degree_to_bitmap(.., modulo=reduce_extended_chords)" if good else "scale_degree_to_bitmap is called with modulo=%s: with reduce_extended_chords=True the extended degrees (9, 11, 13) are discarded instead of folded into the octave" % (tm.show(m, 2) if m is not None else "its default (False)"), node=c.node)
+    if not cs:
+        yield ob(R, f, "chord.encode:degree-modulo", True, "degrees are applied in place by encode() itself (no call of scale_degree_to_bitmap)")
+
+
 RULES = [
+    ("C10.DEGREEMODULO", 1, rule_degreemodulo),
     ("C10.FORMATSAFE", 1, rule_formatsafe),
     ("C10.GRAMMAR", 3, rule_grammar),
     ("C10.SPLITSAFE", 5, rule_splitsafe),
